@@ -374,3 +374,52 @@ func VerifCSSDataURL(n int) {
 	vAssert(rcEq(rcPctDecode(u[k+1:]), want), "same payload")
 	vReach("end")
 }
+
+// Selector case (Selectors 4, HTML): in an HTML document a type selector matches HTML elements case-insensitively, but
+// elements of other namespaces (SVG camelCase names) by the exact spelling; class, id and attribute names and values,
+// and the custom identifiers in ::part(), ::highlight() and :state() are case-sensitive. Pseudo-class and
+// pseudo-element names and HTML element names may change case.
+var verifSelParts = [][2]string{
+	// {text, kind}: kind "i" = case-insensitive (may be lowered), "s" = case-sensitive
+	{"DIV", "i"}, {"Span", "i"}, {"A:HOVER", "i"}, {"a::Before", "i"}, {".Foo", "s"}, {"#Bar", "s"}, {"[Data-X=Abc]", "s"}, {"a.B.c", "s"}, {"::part(Foo)", "s"}, {"::part(Foo Bar)", "s"},
+	{"::highlight(My-Name)", "s"}, {"x-a:state(Checked)", "s"}, {"foreignObject", "svg"}, {"linearGradient", "svg"}, {"clipPath", "svg"}, {"svg|textPath", "svg"}, {":is(feBlend)", "svg"},
+	{"a:not(.B)", "s"}, {"LI:nth-child(2N+1)", "i"}, {":lang(EN)", "i"},
+}
+
+// VerifCSSSelectorCase (C04): n selector parts joined by a combinator: case-sensitive parts survive byte for byte, the
+// others up to ASCII case.
+func VerifCSSSelectorCase(n int) {
+	var sel []byte
+	kinds := make([]string, 0, n)
+	parts := make([]string, 0, n)
+	for i := 0; i < n; i++ {
+		p := verifSelParts[vChoice("part"+string(rune('0'+i)), len(verifSelParts))]
+		if i > 0 {
+			sel = append(sel, []string{" ", ">", ",", "+"}[vChoice("comb"+string(rune('0'+i)), 4)]...)
+		}
+		sel = append(sel, p[0]...)
+		parts = append(parts, p[0])
+		kinds = append(kinds, p[1])
+	}
+	in := append(append([]byte(nil), sel...), "{color:red}"...)
+	out, err := verifCSSRun(in, &Minifier{}, false)
+	vReach("after-call")
+	vOutput("out", out)
+	vAssert(err == nil, "accepted")
+	tail := "{color:red}"
+	vAssert(len(out) == len(in) && string(out[len(out)-len(tail):]) == tail, "selector keeps its length and the block is unchanged: "+string(out))
+	osel := out[:len(out)-len(tail)]
+	vAssert(rcEqFold(osel, sel), "selector unchanged up to ASCII case: "+string(osel))
+	pos := 0
+	for i, p := range parts {
+		got := osel[pos : pos+len(p)]
+		if kinds[i] == "svg" && !rcEq(got, []byte(p)) {
+			vKnown("C04-F96")
+		}
+		if kinds[i] != "i" {
+			vAssert(rcEq(got, []byte(p)), "case-sensitive selector part kept byte for byte: "+p+" => "+string(got))
+		}
+		pos += len(p) + 1
+	}
+	vReach("end")
+}
